@@ -12,6 +12,7 @@ import (
 	"seata.apache.org/seata-go/pkg/protocol/branch"
 	"seata.apache.org/seata-go/pkg/protocol/codec"
 	"seata.apache.org/seata-go/pkg/protocol/message"
+	sgetty "seata.apache.org/seata-go/pkg/remoting/getty"
 	"seata.apache.org/seata-go/pkg/rm"
 )
 
@@ -24,6 +25,7 @@ type stubRM struct {
 	script  map[string]string // "xid/branch" -> "s<status>" | "e"
 	calls   map[string]int
 	wrongRM int
+	retired bool // another manager has been registered for this branch type since
 }
 
 func (s *stubRM) answer(kind string, r rm.BranchResource) (branch.BranchStatus, error) {
@@ -31,10 +33,14 @@ func (s *stubRM) answer(kind string, r rm.BranchResource) (branch.BranchStatus, 
 	s.mu.Lock()
 	oc, ok := s.script[key]
 	s.calls[kind+":"+key]++
-	if !ok {
+	if !ok || s.retired {
 		s.wrongRM++
 	}
+	retired := s.retired
 	s.mu.Unlock()
+	if retired {
+		return branch.BranchStatusUnknown, errors.New("this manager has been replaced")
+	}
 	if !ok || oc == "e" {
 		return branch.BranchStatusUnknown, errors.New("manager failed")
 	}
@@ -69,6 +75,7 @@ func runC15(c *Ctx) {
 		stubs[int(bt)] = s
 		rm.GetRmCacheInstance().RegisterResourceManager(s)
 	}
+	var retiredStubs []*stubRM
 	rng := NewRng(c.Seed)
 	ss := coord.Sessions()
 	sess := ss[len(ss)-1]
@@ -98,9 +105,50 @@ func runC15(c *Ctx) {
 		var reqs []req
 		var msgIDs []int32
 		boundary := []int32{0, 1, -1, 2147483647, -2147483648}
+		// directed streams. reRegister: every request is of one branch type, the first is delivered alone, then
+		// another manager is registered for that type, then the rest arrives.  pendingID: the first request
+		// carries the message id of a request of the client's own that is still waiting for its answer (the
+		// two sides number their messages independently).
+		reRegister, pendingID := i%6 == 5, i%6 == 2
+		reType := []int{0, 1, 3}[(i/6)%3]
+		if reRegister && n < 2 {
+			n = 2
+		}
+		var pendDone chan struct{}
+		var pendResult string
+		if pendingID {
+			seen := make(chan int32, 1)
+			mark := fmt.Sprintf("c15-pending-%d", i)
+			coord.Script = func(s *FakeSession, kind string, m message.RpcMessage) Action {
+				if b, ok := m.Body.(message.GlobalStatusRequest); ok && b.Xid == mark {
+					seen <- m.ID
+					return Action{Delay: 120 * time.Millisecond}
+				}
+				return Action{}
+			}
+			pendDone = make(chan struct{})
+			go func() {
+				defer close(pendDone)
+				pendResult = safeCall(func() {
+					res, err := sgetty.GetGettyRemotingClient().SendSyncRequest(message.GlobalStatusRequest{
+						AbstractGlobalEndRequest: message.AbstractGlobalEndRequest{Xid: mark}})
+					if _, ok := res.(message.GlobalStatusResponse); err != nil || !ok {
+						panic(fmt.Sprintf("the client's own request got %T / %v", res, err))
+					}
+				})
+			}()
+			select {
+			case id := <-seen:
+				boundary = []int32{id}
+			case <-time.After(5 * time.Second):
+				pendingID = false
+			}
+		}
 		for k := 0; k < n; k++ {
 			msgID++
-			if k == 0 && r.Chance(30) {
+			if k == 0 && pendingID {
+				msgIDs = append(msgIDs, boundary[0])
+			} else if k == 0 && r.Chance(30) {
 				// the coordinator's id counter wraps: boundary message ids (each at most once per stream)
 				msgIDs = append(msgIDs, boundary[r.Intn(len(boundary))])
 			} else {
@@ -111,6 +159,9 @@ func runC15(c *Ctx) {
 				kind = "R"
 			}
 			bt := []int{0, 1, 3, 0, 1, 3, 2, -1, 7}[r.Intn(9)]
+			if reRegister {
+				bt = reType
+			}
 			xid := fmt.Sprintf("10.0.0.%d:8091:%d", 1+r.Intn(3), 1000+r.Intn(4)) // xids shared between requests
 			bid := int64(1 + r.Intn(6))                                            // branch ids shared across xids
 			if r.Chance(10) {
@@ -152,8 +203,23 @@ func runC15(c *Ctx) {
 		var wg sync.WaitGroup
 		panics := 0
 		var pmu sync.Mutex
-		for _, q := range reqs {
+		for qi, q := range reqs {
 			q := q
+			if reRegister && qi == 1 {
+				// the first request has been answered; now the application registers another manager for the type
+				wg.Wait()
+				old := stubs[reType]
+				old.mu.Lock()
+				old.retired = true
+				repl := &stubRM{bt: old.bt, script: map[string]string{}, calls: map[string]int{}}
+				for k, v := range old.script {
+					repl.script[k] = v
+				}
+				old.mu.Unlock()
+				stubs[reType] = repl
+				retiredStubs = append(retiredStubs, old)
+				rm.GetRmCacheInstance().RegisterResourceManager(repl)
+			}
 			wg.Add(1)
 			go func() {
 				defer wg.Done()
@@ -198,18 +264,35 @@ func runC15(c *Ctx) {
 			return x < y
 		})
 		c.Out.Case(cid, "C15", "stream "+strings.Join(toks, " "), obs)
+		if pendDone != nil {
+			<-pendDone
+			coord.Script = nil
+			if pendResult != "" {
+				panics++
+			}
+		}
 		wrong := 0
+		for _, st := range retiredStubs {
+			st.mu.Lock()
+			wrong += st.wrongRM
+			st.wrongRM = 0
+			st.mu.Unlock()
+		}
 		for _, st := range stubs {
 			st.mu.Lock()
 			wrong += st.wrongRM
 			st.wrongRM = 0
 			st.mu.Unlock()
 		}
-		ok := strings.Join(got, " ") == strings.Join(wants, " ") && wrong == 0
+		ok := strings.Join(got, " ") == strings.Join(wants, " ") && wrong == 0 && pendResult == ""
 		detail := ""
 		if wrong > 0 {
-			detail = fmt.Sprintf("%d requests reached a manager of another branch type; ", wrong)
+			detail = fmt.Sprintf("%d requests reached a manager that is not the one registered for their branch type; ", wrong)
 		}
+		if pendResult != "" {
+			detail += "the client's own pending request: " + pendResult + "; "
+		}
+		c.Out.Count(fmt.Sprintf("directed.reRegister=%v.pendingID=%v", reRegister, pendingID))
 		c.Out.Oracle(cid, ok, "dispatch", detail+"got="+obs+" want="+strings.Join(wants, " "))
 		c.Out.Tag(cid, fmt.Sprintf("nontrivial=%d", b2i(n > 1)))
 		c.Out.Count(fmt.Sprintf("panics-recovered-as-the-task-pool-does.%d", panics))
